@@ -181,11 +181,15 @@ def lean_denote(ctx, call, solved, args):
     if any(np.asarray(a).dtype.kind not in "iu" for a in args):
         return None
     ei, eo = solved
-    kind = "denote_fun" if is_concat_free(solved) and fam in ("id", "elementwise") else "denote"
-    if kind == "denote" and fam in ("reduce", "dot"):
+    # `denote_fun` runs the functional form next to the executable loop form and compares them cell by cell: id (with
+    # concatenations: Denote.denoteIdFunG), elementwise, reduce, dot (concatenation-free)
+    kind = "denote_fun" if (fam == "id" or is_concat_free(solved)) else "denote"
+    if fam in ("reduce", "dot"):
         if not is_concat_free(solved):
             return None
         ctx.count("denote-loop:" + fam)
+    if fam == "id" and not is_concat_free(solved):
+        ctx.count("denote-fun:id-with-concatenation")
     r = ctx.driver().ask({"kind": kind, "family": fam, "op": call["op"], "exprs_in": ei, "exprs_out": eo, "inputs": [tens(a) for a in args]})
     if kind == "denote_fun":
         ctx.count("denote_fun:" + ("agree" if r.get("agree") else "DISAGREE"))
